@@ -640,11 +640,13 @@ class Engine:
         best = m
         nice = [z3.And(self.vars[n] >= lo, self.vars[n] <= hi) for n, (lo, hi) in self.nice.items()
                 if n in self.vars]
-        for extra in ([strong] + nice if strong is not None else None, nice if nice else None,
-                      [strong] if strong is not None else None):
+        for extra in ([strong] + nice if strong is not None else None, [strong] if strong is not None else None,
+                      nice if nice else None):
             if not extra:
                 continue
-            r2, m2 = self._check(neg, *extra, timeout=min(self.qtimeout, 5000))
+            r2, m2 = self._check(neg, *extra, timeout=self.qtimeout)
+            if r2 == 'unknown':
+                r2, m2 = self._fresh_check([neg] + list(extra), self.qtimeout)
             if r2 == 'sat':
                 best = m2
                 break
